@@ -272,7 +272,7 @@ PROPS["C03"] = dict(
     trusted_base=_DRV_TB, assumptions=_DRV_ASSUME + ["Measurement Period as a kernel attribute is outside the statement (the periodic server, not the kernel, times the reports)"],
     level_text="Kernel-checked (Props/C03.lean): for EVERY QER/URR/BAR content and every arrangement the request reads back exactly: gate, 40-bit MBR/GBR (rate_split: high32*256+low8 = rate, "
                "UL under UL, DL under DL), QFI, RQI, PPI, correlation id; method, info, trigger word (little-endian widening of 2/3 octets), threshold/quota flags with each volume under its flag; "
-               "BAR delay and packet count; Create URR registers (seid, urr, period) with the periodic server iff PERIO is set; create_again_keeps_registration — the same Create URR arriving again while the rule is live (refused by the kernel) leaves the periodic server's state, and what every tick queries, unchanged. Tie: S-drv + reader on the implementation's bytes + perio dump (also after a second, refused Create URR).",
+               "BAR delay and packet count; Create URR registers (seid, urr, period) with the periodic server iff PERIO is set; create_again_keeps_registration — the same Create URR arriving again while the rule is live (refused by the kernel) leaves the periodic server's state, and what every tick queries, unchanged. update_reaches_data_plane / update_twice_two_calls — the session layer hands every Update IE for a rule the session has to the data plane (one call under the session's SEID with the rule id; the same Update twice gives two calls). Tie: S-drv + reader on the implementation's bytes + perio dump (also after a second, refused Create URR); S-ctl mix with the predicate 'every Update QER/URR/BAR IE for a rule the session has reaches the data plane, once per IE'.",
     level_note="Trusted: as C02. Known finding (recorded): Update URR never changes the periodic registration. Fixed: BAR delay truncation.",
 )
 
